@@ -48,8 +48,21 @@ def sim_replay(v, path):
 def snapshot_check(walk, routes):
     def run(v, tier, seed):
         scen, impl, model, bad = snap_suite.run_snapshot(v, tier, seed, walk=walk)
-        snap_suite.report(v, bad, "snapshot")
+        snap_suite.report(v, bad, "snapshot", monitor=snap_suite.snapshot_timer_monitor)
         n = len(bad)
+        # the remaining-time monitor also runs on every scenario on which the correspondence holds
+        badnames = {b[0] for b in bad}
+        nmon = 0
+        for nm, lines in scen:
+            if nm in badnames:
+                continue
+            nmon += 1
+            msg = snap_suite.snapshot_timer_monitor(lines, impl.get(nm, []))
+            if msg:
+                v.violation(f"snapshot-timer-{nm}.txt", f"# property {v.pid}: {msg}\n# replay: /verif/check {v.pid} --replay <this file>\n"
+                            + "".join(l + "\n" for l in lines))
+                n += 1
+        v.coverage.setdefault("snapshot", {})["remaining_time_monitor_scenarios"] = nmon
         if walk:
             n += snap_suite.judge_sim_path_covered(v, scen, impl, model, "snapshot", D1)
         if routes:
@@ -62,7 +75,19 @@ def pred_check(v, tier, seed):
     fields = mc_suite.ALL_FIELDS + ("P",)
     scen, impl, model, bad = mc_suite.run(v, tier, seed, prof=mc_suite.profile(staged=0.4, two_runs=0.3, p_crash=0.2), n_quick=500,
                                           n_thorough=8000, cfg_lines=["preds"], name="predicates", fields=fields)
-    mc_suite.report_disagreements(v, bad, "predicates", fields)
+    def judge_impl(lines, impl_out):
+        # the current-run predicates by their documentation, at the boundary parameters the harness derives from the part of
+        # the trace after the latest McStarted entry (k entries, f timer firings): state_depth_current_run(k-1|k|k+1) must
+        # reject exactly the first, event_happened_n_times_current_run(timer fired, f-1|f|f+1) must hold for exactly the first two
+        for l in impl_out:
+            if l.startswith(("E ", "T ")):
+                for key, want, what in (("isdc", "100", "invariants::state_depth_current_run at (k-1, k, k+1), k = entries of the current run"),
+                                        ("geh", "110", "goals::event_happened_n_times_current_run(timer fired) at (f-1, f, f+1), f = firings in the current run")):
+                    m = re.search(rf"{key}=(\w+)", l)
+                    if m and m.group(1) != want:
+                        return f"{what}: answers {m.group(1)}, by the documentation {want}; state: {l[:300]}"
+        return None
+    mc_suite.report_disagreements(v, bad, "predicates", fields, judge_impl=judge_impl)
     # D11: at the start state of a run (depth in the current run = 0) `state_depth_current_run(0)` must accept by its
     # documentation; the code counts trace entries (the McStarted entry included) and rejects
     n11 = nstart = nevals = 0
